@@ -44,6 +44,7 @@ func main() {
 	goosFlag := flag.String("goos", "", "analyse the package as built for this GOOS (thorough-tier configuration sweep)")
 	noTag := flag.Bool("notag", false, "analyse without the hook build tag")
 	flag.BoolVar(&noInline, "noinline", false, "debug: do not inline helpers that are not in rules/baseline_functions.json")
+	flag.BoolVar(&dumpShapes, "dump-baseline-shapes", false, "maintenance: print the signature / vocabulary of every function of the package (the \"shapes\" member of rules/baseline_functions.json)")
 	flag.StringVar(&dumpNormalised, "dump-normalised", "", "debug: write the normalised source files to this directory")
 	flag.Parse()
 	if *prop == "" {
